@@ -9,7 +9,7 @@ from props import fam_cif as F
 H = 'h_cif'
 
 
-MANIFEST = {'technique': 'Coq proof (quote/as_string inverse, writer buffer invariant for all documents and option values, value re-lexing and layout safety) + byte-exact differential check + round-trip oracles on gemmi', 'text': 'WHOLE DOCUMENT ROUND TRIP (C01_document_roundtrip): for every document the writer accepts and every value of the writer options, the written bytes tokenise and the token list parses, by the grammar of cif.hpp over tokens (datablock / dataitem / loop / save frame), back to the document itself - minus what the writer does not write (comments, erased items, loops without values) and with one-row loops as pairs when prefer_pairs says so. TOKENS (C01_document_tokens): for every document (blocks, pairs, loops, save frames, comments, erased items) and every value of the writer options, the bytes of write_cif_to_stream are cut by the white-space / comment / tag / reserved-word / value rules of cif.hpp into exactly the tokens of the document, in order - every name, tag and value unchanged, nothing lost or added; the loop body re-lexes to exactly the written values (C01_loop_body_roundtrip). Theorems: as_string(quote s) = s under the exact side condition (no CR tail when a text field is needed; the unconditional claim is refuted with a witness); the sequence of buffer operations the writer issues keeps 0 <= ptr <= 4096 for EVERY document and EVERY option value and the buffered output equals the concatenation of the pieces; a well-formed raw value of any of the five lexical classes written where the writer places it (pairs: 120-column rule, alignment; loops: all column counts/widths) re-lexes to exactly itself. Pre-fix behaviour is kept as refuted witnesses. The writer/quoting/lexer model is compared byte-exactly with gemmi (DOM x options incl. widths 0..65535; PEGTL value rule); oracles on gemmi: write->read at check levels 0/1/2 for generated and mutated texts and DOMs, mmJSON write->read, JSON value assignment. Not modelled: how the PEGTL actions store tokens in the DOM structs (covered by the byte-exact comparison and the oracles), CR-LF normalisation inside text fields, mmJSON.', 'note': 'Trusted: Coq kernel; char_table translator gen/dump_chartable.cpp; extraction; harness (ASan). No axioms. PEGTL document grammar, sajson and std::ostream are not modelled. Known non-repairable: quote() loses a trailing CR of multi-line values; quote of text containing "\\n;".'}
+MANIFEST = {'technique': 'Coq proof (quote/as_string inverse, writer buffer invariant for all documents and option values, value re-lexing and layout safety) + byte-exact differential check + round-trip oracles on gemmi', 'text': 'NUMBERS IN JSON / mmJSON (JsonWriter::write_as_number modelled in Cif/JsonNum.v): for every string of the CIF production Numeric, given by its parts, the text written is proved to be sign, integer digits without leading zeros (0 when none), point and fraction digits (0 when none), exponent, no standard uncertainty, and the JSON number grammar accepts it; compared byte for byte with the mmJSON writer of gemmi (and sajson accepts the file) on generated numbers. WHOLE DOCUMENT ROUND TRIP (C01_document_roundtrip): for every document the writer accepts and every value of the writer options, the written bytes tokenise and the token list parses, by the grammar of cif.hpp over tokens (datablock / dataitem / loop / save frame), back to the document itself - minus what the writer does not write (comments, erased items, loops without values) and with one-row loops as pairs when prefer_pairs says so. TOKENS (C01_document_tokens): for every document (blocks, pairs, loops, save frames, comments, erased items) and every value of the writer options, the bytes of write_cif_to_stream are cut by the white-space / comment / tag / reserved-word / value rules of cif.hpp into exactly the tokens of the document, in order - every name, tag and value unchanged, nothing lost or added; the loop body re-lexes to exactly the written values (C01_loop_body_roundtrip). Theorems: as_string(quote s) = s under the exact side condition (no CR tail when a text field is needed; the unconditional claim is refuted with a witness); the sequence of buffer operations the writer issues keeps 0 <= ptr <= 4096 for EVERY document and EVERY option value and the buffered output equals the concatenation of the pieces; a well-formed raw value of any of the five lexical classes written where the writer places it (pairs: 120-column rule, alignment; loops: all column counts/widths) re-lexes to exactly itself. Pre-fix behaviour is kept as refuted witnesses. The writer/quoting/lexer model is compared byte-exactly with gemmi (DOM x options incl. widths 0..65535; PEGTL value rule); oracles on gemmi: write->read at check levels 0/1/2 for generated and mutated texts and DOMs, mmJSON write->read, JSON value assignment. Not modelled: how the PEGTL actions store tokens in the DOM structs (covered by the byte-exact comparison and the oracles), CR-LF normalisation inside text fields, mmJSON.', 'note': 'Trusted: Coq kernel; char_table translator gen/dump_chartable.cpp; extraction; harness (ASan). No axioms. PEGTL document grammar, sajson and std::ostream are not modelled. Known non-repairable: quote() loses a trailing CR of multi-line values; quote of text containing "\\n;".'}
 
 def lines_quote(rng, n):
     out = []
